@@ -8,7 +8,7 @@ full n^3 mesh of `numpy.fft.fftfreq` frequencies with the bin convention
 (same for mu^2, mu^2 := 0 for the zero mode; for (k_perp, pi): k_perp^2 as above, kz^2 in range iff
 kz^2 < pi_last).
 
-This file is also the bounds-check worker:  python c08.py --worker cases.json out.json
+This file is also the bounds-check worker:  python c08.py --worker cases.json   (one JSON result line per case)
 """
 import os
 
@@ -506,6 +506,8 @@ def run_kernel(ps, c, how):
     """how: 'jit' | 'py'.  Returns dict of numpy arrays or {'err': ...}"""
     n, L = c['n'], c['L']
     half = half_mesh(c)
+    if c.get('raw_mesh'):
+        half = raw_of(c, half)
     ke = np.array(c['kedges'], dtype=np.float64)
     dt = DT[c['dtype']]
     nth = 1 if how == 'py' else c['nthread']
@@ -550,17 +552,19 @@ def jsonable_result(r):
     return {k: (v.tolist() if isinstance(v, np.ndarray) else v) for k, v in r.items()}
 
 
-def worker(inp, outp):
-    """bounds-checked run of the compiled kernels (NUMBA_BOUNDSCHECK=1 set by the parent)"""
+def worker(inp):
+    """bounds-checked run of the compiled kernels (NUMBA_BOUNDSCHECK=1 set by the parent): one JSON line per case"""
     from abacusnbody.analysis import power_spectrum as ps
     cases = json.loads(open(inp).read())
-    res = []
     for c in cases:
+        if c['kind'] == 'calc':
+            # the bin_kmu call calc_pk_from_deltak makes (float32 accumulators) on the raw power mesh
+            c = dict(c, kind='kmu', dtype='f4', raw_mesh=True)
         r = run_kernel(ps, c, 'jit')
-        res.append(jsonable_result({k: (np.asarray(v, dtype=np.float64) if isinstance(v, np.ndarray) and v.dtype.kind == 'f' else v)
-                                    for k, v in r.items()}))
-    with open(outp, 'w') as f:
-        json.dump(res, f)
+        r = {k: (np.asarray(v, dtype=np.float64) if isinstance(v, np.ndarray) and v.dtype.kind == 'f' else v)
+             for k, v in r.items()}
+        sys.stdout.write(json.dumps(jsonable_result(r)) + '\n')
+        sys.stdout.flush()
 
 
 # --------------------------------------------------------------------------- comparison
@@ -756,31 +760,37 @@ def needs_boundscheck(c):
     return float(ek2[-1]) <= 3 * h * h
 
 
-def start_worker(ctx, cases):
-    import vcommon
-    d = ctx.tmpdir()
-    inp, outp = os.path.join(d, 'bc_cases.json'), os.path.join(d, 'bc_out.json')
-    with open(inp, 'w') as f:
-        json.dump(cases, f)
-    env = vcommon.impl_env({'NUMBA_BOUNDSCHECK': '1', 'NUMBA_NUM_THREADS': '16'})
-    p = subprocess.Popen([vcommon.PY, '-B', os.path.abspath(__file__), '--worker', inp, outp], env=env,
-                         stdout=subprocess.PIPE, stderr=subprocess.STDOUT, text=True)
-    return p, outp
+class Worker:
+    """the bounds-checked kernels in a sub-process; results are read back one case at a time, in order"""
 
+    def __init__(self, ctx, cases):
+        import vcommon
+        d = ctx.tmpdir()
+        inp = os.path.join(d, 'bc_cases_%d.json' % len(os.listdir(d)))
+        with open(inp, 'w') as f:
+            json.dump(cases, f)
+        self.errf = open(inp + '.stderr', 'w+')
+        env = vcommon.impl_env({'NUMBA_BOUNDSCHECK': '1', 'NUMBA_NUM_THREADS': '16'})
+        self.p = subprocess.Popen([vcommon.PY, '-B', os.path.abspath(__file__), '--worker', inp], env=env,
+                                  stdout=subprocess.PIPE, stderr=self.errf, text=True)
 
-def finish_worker(p, outp, ncases):
-    import vcommon
-    try:
-        out, _ = p.communicate(timeout=1500)
-    except subprocess.TimeoutExpired:
-        p.kill()
-        raise
-    if p.returncode != 0 or not os.path.exists(outp):
-        raise vcommon.Infra('bounds-check worker failed rc=%s:\n%s' % (p.returncode, (out or '')[-2000:]))
-    res = json.loads(open(outp).read())
-    if len(res) != ncases:
-        raise vcommon.Infra('bounds-check worker: %d cases, %d results' % (ncases, len(res)))
-    return [{k: (np.array(v) if isinstance(v, list) else v) for k, v in r.items()} for r in res]
+    def next(self):
+        import vcommon
+        line = self.p.stdout.readline()
+        if not line:
+            self.p.wait()
+            self.errf.seek(0)
+            raise vcommon.Infra('bounds-check worker ended early rc=%s:\n%s' % (self.p.returncode, self.errf.read()[-2000:]))
+        r = json.loads(line)
+        return {k: (np.array(v) if isinstance(v, list) else v) for k, v in r.items()}
+
+    def close(self):
+        try:
+            self.p.stdout.close()
+            self.p.wait(timeout=60)
+        except Exception:
+            self.p.kill()
+        self.errf.close()
 
 
 def load_corpus():
@@ -793,7 +803,7 @@ def load_corpus():
     return out
 
 
-def process(ctx, ps, cases, use_worker=True):
+def process(ctx, ps, cases):
     chk = Checker(ctx)
     kept = []
     for c in cases:
@@ -802,42 +812,40 @@ def process(ctx, ps, cases, use_worker=True):
         else:
             ctx.count('skipped:float-fragile')
     cases = kept
-    bc_idx = [i for i, c in enumerate(cases) if needs_boundscheck(c) and c['kind'] != 'calc']
-    wp = None
-    if use_worker and bc_idx:
-        wp, outp = start_worker(ctx, [cases[i] for i in bc_idx])
+    if not cases:
+        return
+    # every case goes through the bounds-checked kernel first; the unchecked kernel (as users run it) is only run
+    # in this process on inputs on which the checked one stayed inside its arrays
+    w = Worker(ctx, cases)
     try:
         mres = ctx.driver.query([model_line(c) for c in cases])
         models = [parse_model(s, c) for s, c in zip(mres, cases)]
-        bcset = set(bc_idx)
-        # cases that are not tempted past the last edge: in-process right away (overlaps with the worker's compile time)
-        for i, c in enumerate(cases):
-            if i in bcset and wp is not None:
+        # (the two processes are not run side by side: two 16-thread numba pools on the same cores crawl)
+        bres = [w.next() for _ in cases]
+        for c, m, r in zip(cases, models, bres):
+            ctx.count('boundscheck-runs')
+            if needs_boundscheck(c):
+                ctx.count('range-ends-below-largest-mode')
+            if c.get('expect_fault'):
+                ctx.case(dict(kind=c['kind'], n=c['n'], muedges=c['muedges'], fault=True), nontrivial=True)
+                if r.get('err') != 'oob' or m.get('err') != 'oob':
+                    ctx.disagree('mu edges short of 1: model and bounds-checked kernel must both run past the mu edges', c,
+                                 m.get('err', 'ok'), r.get('err', 'ok'))
                 continue
-            run_one(ctx, ps, chk, c, models[i], None)
+            run_one(ctx, ps, chk, c, m, r)
     finally:
-        bres = finish_worker(wp, outp, len(bc_idx)) if wp is not None else []
-    for i, r in zip(bc_idx, bres):
-        c = cases[i]
-        ctx.count('boundscheck-runs')
-        if c.get('expect_fault'):
-            ctx.case(dict(kind=c['kind'], n=c['n'], muedges=c['muedges'], fault=True), nontrivial=True)
-            if r.get('err') != 'oob' or models[i].get('err') != 'oob':
-                ctx.disagree('mu edges short of 1: model and bounds-checked kernel must both run past the mu edges', c,
-                             models[i].get('err', 'ok'), r.get('err', 'ok'))
-            continue
-        run_one(ctx, ps, chk, c, models[i], r)
+        w.close()
 
 
 def run_one(ctx, ps, chk, c, m, bres):
-    """bres: result of the bounds-checked kernel (None when the case was not sent to the worker)"""
+    """bres: result of the bounds-checked kernel"""
     runs = {}
-    if bres is not None:
-        runs['boundscheck'] = bres
-    if bres is not None and 'err' in bres:
-        # the compiled kernel is known to leave its arrays on this input: do not run it unchecked in this process
-        chk.check(c, m, runs)
+    if 'err' in bres:
+        # the compiled kernel is known to leave its arrays (or raise) on this input: do not run it unchecked here
+        chk.check(c, m, {'boundscheck': bres})
         return
+    if c['kind'] != 'calc':
+        runs['boundscheck'] = bres
     byT = {}
     for T in NTHREADS:
         cc = dict(c, nthread=T)
@@ -913,7 +921,7 @@ def replay(ctx, doc):
 
 
 if __name__ == '__main__':
-    if len(sys.argv) == 4 and sys.argv[1] == '--worker':
-        worker(sys.argv[2], sys.argv[3])
+    if len(sys.argv) == 3 and sys.argv[1] == '--worker':
+        worker(sys.argv[2])
     else:
         print(__doc__)
